@@ -4,6 +4,7 @@ import (
 	"bytes"
 	"encoding/json"
 	"fmt"
+	"math/big"
 	"sort"
 	"strconv"
 	"strings"
@@ -301,6 +302,33 @@ func c10Specs(thorough bool) []*gen.ProgSpec {
 			}
 		})
 	}
+	// large times: durations at the 32-bit edges (the decode time of a later sample in the same stts run exceeds 2^32
+	// ticks), three timescales; cropped at the boundary set of milliseconds around every sample start (see c10MSList)
+	bigVals := []int64{1 << 31, 0xffffffff, 1}
+	for n := 3; n <= 4; n++ {
+		enum.Tuples(n, len(bigVals), func(t []int) {
+			durs := make([]int64, n)
+			for i, x := range t {
+				durs[i] = bigVals[x]
+			}
+			if n == 4 && !thorough && (t[0] != t[1] && t[1] != t[2] && t[2] != t[3]) {
+				return // quick: four samples only with at least one repeated neighbour (a run of length >= 2)
+			}
+			for ci, ch := range [][]int{{n}, ones(n)} {
+				for mi, mask := range []uint{1, 1<<uint(n) - 1, 1 | 1<<uint(n-1)} {
+					for ti, ts := range []uint32{1000, 90000, 10000000} {
+						if !thorough && (ci+mi+ti+int(durs[0]))%2 == 1 && n == 4 {
+							continue
+						}
+						specs = append(specs, &gen.ProgSpec{Tracks: []gen.ProgTrack{mkTrack("video", ts, n, ch, durs, (ci+mi)%4, mask, true)}, MdatLarge: ti == 1})
+						if mi == 0 {
+							specs = append(specs, &gen.ProgSpec{Tracks: []gen.ProgTrack{mkTrack("audio", ts, n, ch, durs, ci, 0, false)}})
+						}
+					}
+				}
+			}
+		})
+	}
 	// video + audio: all chunkings of both, every merge order of the chunks
 	maxA := maxVA
 	tss := []uint32{1000, 600}
@@ -355,6 +383,58 @@ func c10Specs(thorough bool) []*gen.ProgSpec {
 	return specs
 }
 
+func ones(n int) []int {
+	o := make([]int, n)
+	for i := range o {
+		o[i] = 1
+	}
+	return o
+}
+
+// c10MSList: the crop durations tried on a file: every millisecond 1..total+2 for short files, and for long ones the
+// boundary set (for every sample start t of every track: floor(t in ms) -1, +0, +1, +2, and 1, total+1, total+2).
+func c10MSList(sp *gen.ProgSpec, pf *gen.ProgFile) []uint64 {
+	var totalMS uint64
+	for ti, t := range sp.Tracks {
+		var tot uint64
+		for _, s := range pf.Samples[ti] {
+			tot += uint64(s.Dur)
+		}
+		ms := (tot*1000 + uint64(t.Timescale) - 1) / uint64(t.Timescale)
+		if ms > totalMS {
+			totalMS = ms
+		}
+	}
+	var out []uint64
+	if totalMS <= 5000 {
+		for ms := uint64(1); ms <= totalMS+2; ms++ {
+			out = append(out, ms)
+		}
+		return out
+	}
+	set := map[uint64]bool{1: true, totalMS + 1: true, totalMS + 2: true}
+	for ti, t := range sp.Tracks {
+		for _, s := range pf.Samples[ti] {
+			q := new(big.Int).Mul(new(big.Int).SetUint64(s.DecTime), big.NewInt(1000))
+			q.Div(q, new(big.Int).SetUint64(uint64(t.Timescale)))
+			m := q.Uint64()
+			for _, d := range []uint64{0, 1, 2} {
+				set[m+d] = true
+			}
+			if m > 1 {
+				set[m-1] = true
+			}
+		}
+	}
+	for m := range set {
+		if m >= 1 {
+			out = append(out, m)
+		}
+	}
+	sort.Slice(out, func(i, j int) bool { return out[i] < out[j] })
+	return out
+}
+
 func runC10(c *vf.Ctx) {
 	thorough := c.Tier == "thorough"
 	if thorough {
@@ -362,7 +442,7 @@ func runC10(c *vf.Ctx) {
 	} else {
 		c.SetBudget(4 * 60 * 1e9)
 	}
-	c.Rule = "generated progressive files: single video track with stss (all chunkings x every sync subset containing sample 1 x duration tuples over {1,2,3} x ctts/sdtp/co64/edts/mdat-first/64-bit-mdat-header variants), single audio / video track without stss (also with a track header duration of half the media duration and of zero), video+audio (all chunkings of both x every merge order of the chunks in mdat x sync subsets; audio timescale 1000 and 600) ; each file is cropped in-process by the tool's own cropMP4 (overlay-injected driver) at EVERY millisecond 1..total+2. A case = (file, ms). Only successful crops are judged; tool errors/panics are tallied."
+	c.Rule = "generated progressive files: single video track with stss (all chunkings x every sync subset containing sample 1 x duration tuples over {1,2,3} x ctts/sdtp/co64/edts/mdat-first/64-bit-mdat-header variants), single audio / video track without stss (also with a track header duration of half the media duration and of zero), video+audio (all chunkings of both x every merge order of the chunks in mdat x sync subsets; audio timescale 1000 and 600) ; single video (with stss) / audio tracks of 3-4 samples with durations over {2^31, 2^32-1, 1} ticks at timescales 1000 / 90000 / 10^7 (decode times beyond 2^32 ticks inside one stts run); each file is cropped in-process by the tool's own cropMP4 (overlay-injected driver) at EVERY millisecond 1..total+2 (files longer than 5 s: at the boundary set of milliseconds around every sample start of every track, and 1, total+1, total+2). A case = (file, ms). Only successful crops are judged; tool errors/panics are tallied."
 	c.Bound = "single track N <= 5 (quick) / 6 (thorough) samples; video+audio N <= 3 / 4 each, audio timescale 1000 and 600 (reference track always 1000)"
 	specs := c10Specs(thorough)
 	c.Set("files", len(specs))
@@ -389,19 +469,9 @@ func runC10(c *vf.Ctx) {
 		if err != nil {
 			vf.Harness("c10 gen: %v", err)
 		}
-		var totalMS uint64
-		for ti, t := range sp.Tracks {
-			var tot uint64
-			for _, s := range pf.Samples[ti] {
-				tot += uint64(s.Dur)
-			}
-			ms := (tot*1000 + uint64(t.Timescale) - 1) / uint64(t.Timescale)
-			if ms > totalMS {
-				totalMS = ms
-			}
-		}
 		local := map[string]int64{}
-		for ms := 1; ms <= int(totalMS)+2; ms++ {
+		for _, ms64 := range c10MSList(sp, pf) {
+			ms := int(ms64)
 			resp, err := p.Call("crop", []byte(strconv.Itoa(ms)), pf.Bytes)
 			if err != nil {
 				vf.Harness("c10 driver: %v", err)
